@@ -238,6 +238,10 @@ def run(ctx):
     from .c04 import find_roles, r4_r5
     fit_, wrapper_, _jac, _dfun = find_roles(prog)
     r4_r5(ctx, prog, fit_, wrapper_, r4="C01-R14", r5="C01-R14")
+    n15 = link.argument_binding(ctx, "C01-R15", roots=[DRIVER],
+                                what="blind finding call graph")
+    ctx.floor("C01-R15", n15, 20, "internal calls reachable from blind "
+              "finding")
     # ---------------------------------------------------------------- R4
     n = rules_num.lmfit_int_uses(ctx, "C01-R4", reach)
     ctx.note("C01-R4: %d int-only uses of coerced lmfit values" % n)
